@@ -116,6 +116,23 @@ Theorem balance_sub_pointwise : forall ord c0 c b b',
 Proof. exact bal_sub_exact. Qed.
 Print Assumptions balance_sub_pointwise.
 
+(* a multi-commodity balance times / divided by a plain number: every commodity scales exactly;
+   a zero divisor is an error *)
+Theorem balance_mul_scalar_pointwise : forall cp b a r c,
+  acomm a = None -> bal_mul cp b a = Ok r -> bden r c == bden b c * aq a.
+Proof. exact bal_mul_scalar_exact. Qed.
+Print Assumptions balance_mul_scalar_pointwise.
+
+Theorem balance_div_scalar_pointwise : forall cp b a r c,
+  acomm a = None -> bal_div cp b a = Ok r -> bden r c == bden b c / aq a.
+Proof. exact bal_div_scalar_exact. Qed.
+Print Assumptions balance_div_scalar_pointwise.
+
+Theorem balance_div_by_zero_is_error : forall cp b a,
+  bal_is_realzero b = false -> aq a == 0 -> bal_div cp b a = Err EDivZero.
+Proof. exact bal_div_zero. Qed.
+Print Assumptions balance_div_by_zero_is_error.
+
 (* ---- values: every INTEGER/AMOUNT/BALANCE cell of + and - refines the denotation ---- *)
 Theorem value_add_refines : forall ord v w r c,
   v_add ord v w = Ok r -> den r c == den v c + den w c.
